@@ -576,9 +576,37 @@ func (np negProp) Exec(c Case) []string {
 		case "wsconn":
 			obs = append(obs, wsConn(cfg.Insecure))
 		case "setinbound":
+			// stanzas received meanwhile: counted by the REAL receive loop on the kept session (fed through a stub
+			// transport), so that the count the next <resume/> presents is the one the loop keeps; only a value
+			// below the current one is set directly
 			n, _ := strconv.Atoi(op[1])
 			if client.Session != nil {
-				client.Session.SMState.Inbound = uint(n)
+				cur := int(client.Session.SMState.Inbound)
+				if n >= cur {
+					var sb strings.Builder
+					sb.WriteString("<?xml version='1.0'?><stream:stream xmlns='jabber:client' xmlns:stream='http://etherx.jabber.org/streams' version='1.0' id='s'>")
+					for k := cur; k < n; k++ {
+						fmt.Fprintf(&sb, "<message id='in%d' type='chat'><body>x</body></message>", k)
+					}
+					st := newStub(strings.NewReader(sb.String()))
+					if _, err := stanza.InitStream(st.GetDecoder()); err == nil {
+						xmpp.VerifSetTransport(client, st)
+						quit := make(chan struct{})
+						done := make(chan struct{})
+						go func() {
+							defer close(done)
+							defer func() { recover() }()
+							xmpp.VerifRecv(client, quit)
+						}()
+						select {
+						case <-done:
+						case <-time.After(5 * time.Second):
+						}
+						xmpp.VerifSetTransport(client, xt)
+					}
+				} else {
+					client.Session.SMState.Inbound = uint(n)
+				}
 			}
 			obs = append(obs, "ok")
 		case "conn":
